@@ -59,8 +59,19 @@ func unionOps() []string {
 // WConfig maps a property id to its Engine-W configuration.
 func WConfig(prop, tier string) *Config {
 	cfg := wConfig(prop, tier)
-	if cfg == nil || tier != "thorough" {
+	if cfg == nil {
 		return cfg
+	}
+	// ledger / custody / supply properties: the commitment module's denom-naming user messages for
+	// every denom of the chain (second routes into keeper functions meant for another denom class)
+	for _, p := range []string{"C02", "C12", "C15"} {
+		if p == prop {
+			follow := []string{"empty", "exit_p2_half_lp1", "claim_vesting_lp1", "mc_claim_lp1"}
+			cfg.Phases = append(cfg.Phases, Phase{Name: "denom-sweep-depth2", Roots: []string{"R1", "R8"}, Ops: append(denomSweepOpNames(), follow...), First: denomSweepOpNames(), Second: follow, Depth: 2, Dev: 2})
+		}
+	}
+	if tier != "thorough" {
+		return devOnlyPhase(cfg)
 	}
 	for _, p := range unionProps {
 		if p == prop {
